@@ -549,6 +549,8 @@ struct FnEmitter {
             } else if (auto *BO = dyn_cast<BinaryOperator>(E)) {
                 o += ",\"k\":\"binop\",\"op\":" + jstr(BO->getOpcodeStr()) + ",\"l\":" + std::to_string(child(BO->getLHS())) +
                      ",\"r\":" + std::to_string(child(BO->getRHS()));
+                // comparisons: the (common) operand type after the usual arithmetic conversions -- K14 needs the signedness
+                if (BO->isComparisonOp()) o += ",\"ot\":" + intInfo(BO->getLHS()->getType());
             } else if (auto *CO = dyn_cast<ConditionalOperator>(E)) {
                 o += ",\"k\":\"cond\",\"c\":" + std::to_string(child(CO->getCond())) + ",\"l\":" + std::to_string(child(CO->getTrueExpr())) +
                      ",\"r\":" + std::to_string(child(CO->getFalseExpr()));
